@@ -1415,8 +1415,20 @@ func (it *Interp) ApplyPoly(p *Poly) *Poly {
 
 // DeepApplyTerm substitutes the path's assumed predicate atoms everywhere in t, also inside atom arguments.
 func (it *Interp) DeepApplyTerm(t *Term) *Term {
-	for a, v := range it.assume {
-		t = NewSubst(a, v).Term(t)
+	if len(it.assume) > 0 {
+		for pass := 0; pass < 2; pass++ {
+			sa := NewSubst(nil, false)
+			sa.Assume = it.assume
+			u := sa.Term(t)
+			same := u.Key() == t.Key()
+			t = u
+			if same {
+				break
+			}
+		}
+	}
+	for _, as := range it.Assumptions() {
+		a, v := as.Atom, as.Val
 		// an assumed equality x = c of a free field symbol binds the symbol
 		if v && a.Kind == PISZ {
 			if fv, c := linearVarEq(a.V); fv != nil {
@@ -1434,8 +1446,21 @@ func (it *Interp) DeepApplyTerm(t *Term) *Term {
 
 // DeepApplyPoly is DeepApplyTerm for polynomials.
 func (it *Interp) DeepApplyPoly(p *Poly) *Poly {
-	for a, v := range it.assume {
-		p = NewSubst(a, v).Poly(p)
+	if len(it.assume) > 0 {
+		// all assumed atoms in one pass (twice: a substitution can expose another assumed atom)
+		for pass := 0; pass < 2; pass++ {
+			sa := NewSubst(nil, false)
+			sa.Assume = it.assume
+			q := sa.Poly(p)
+			same := q.Key() == p.Key()
+			p = q
+			if same {
+				break
+			}
+		}
+	}
+	for _, as := range it.Assumptions() {
+		a, v := as.Atom, as.Val
 		if v && a.Kind == PISZ {
 			if fv, c := linearVarEq(a.V); fv != nil {
 				p = NewVarSubst(fv, c).Poly(p)
